@@ -21,6 +21,9 @@ type runner func(c json.RawMessage) (interface{}, error)
 
 var runners = map[string]runner{}
 
+// childModes: the harness re-executes itself for cases that may take the whole process down
+var childModes = map[string]func(){}
+
 type inLine struct {
 	Id   int             `json:"id"`
 	Case json.RawMessage `json:"case"`
@@ -40,6 +43,10 @@ func main() {
 	log.SetOutput(ioutil.Discard)
 	stdlog.SetOutput(ioutil.Discard)
 	log.SetLevel(log.PanicLevel)
+	if child, ok := childModes[os.Args[1]]; ok {
+		child()
+		return
+	}
 	run, ok := runners[os.Args[1]]
 	if !ok {
 		fmt.Fprintln(os.Stderr, "unknown property", os.Args[1])
